@@ -44,7 +44,10 @@ RULE_ADDED = (
               ' '
               'Round 9: lines of 5 KB..70 KB (thorough 1 MB) holding runs of 2-, 3- and 4-byte '
               'UTF-8 characters in every alignment, in ignored fields, key ids, command names a'
-              'nd outside JSON. ')
+              'nd outside JSON. '
+              ' '
+              'Round 12: a third of the shards run their version-5 manager on the SGX platform,'
+              ' a third on the TCPSigner platform. ')
 RULE = RULE + " " + RULE_ADDED.strip()
 ASSUMPTIONS = [
     "simulated device keeps to its protocol (firmware-like chunking, well-formed answers)",
@@ -441,9 +444,15 @@ def run_shard(spec, acc):
     steps.start()
     st = {}
 
+    # one manager per mode; every third shard runs its version-5 manager as manager_sgx.py
+    # or manager_tcp.py wire it (other dongle class, platform set accordingly)
+    plat5 = ["ledger", "sgx", "tcp"][spec["shard"] % 3]
+    acc.count("shards_on_platform_" + plat5)
+
     def get_stack(v1):
         if v1 not in st:
-            dev = c02.make_device(random.Random(5))
+            plat = "ledger" if v1 else plat5
+            dev = c02.make_device(random.Random(5), plat)
             s = Stack(dev, version_one=v1)
             s.__enter__()
             s.initialize()
@@ -790,6 +799,10 @@ def manager_child(argv):
     import tempfile
     dev = c02.make_device(random.Random(6))
     bus = Bus(dev, VirtualClock())
+    slow = os.environ.get("PV_SLOW_EXCHANGES")
+    if slow:
+        # (every exchange takes that many real seconds: a slow device)
+        bus.read_latency = float(slow)
     lp.HSM2ProtocolLedger.OPEN_APP_WAIT = 0
     Platform.set(Platform.LEDGER)
     d = tempfile.mkdtemp(prefix="pv-c03-mgr-")
